@@ -14,13 +14,14 @@ CONSTANTS TraceFile
 
 Trace == ndJsonDeserialize(TraceFile)
 
-VARIABLES l, lost, mech
+VARIABLES l, lost, mech,
+          starve    \* directory -> [n: consecutive writes that went elsewhere while it had room, k: most directories with room at once meanwhile]
 (* mech: the recorded walk has followed the mechanism of Dirs.tla so far. When the code creates or offers        *)
 (* directories differently (a refactoring may), that is DRIFT: it is printed and the mechanism is no longer     *)
 (* compared for this execution, while what C17 promises -- layout, bound, no entry elsewhere -- still is.       *)
-vars == <<dvars, l, lost, mech>>
+vars == <<dvars, l, lost, mech, starve>>
 
-Init == DInit /\ l = 1 /\ lost = FALSE /\ mech = TRUE
+Init == DInit /\ l = 1 /\ lost = FALSE /\ mech = TRUE /\ starve = Fn({}, LAMBDA x : [n |-> 0, k |-> 0])
 
 RECURSIVE RemoveAll(_, _, _)
 (* apply the removals one by one: returns <<ok, cnt, active>> *)
@@ -41,15 +42,30 @@ CountsAfter(d, news) ==
   LET all == Dirs \cup DOMAIN news \cup {d}
   IN Fn(all, LAMBDA x : (IF x \in Dirs THEN cnt[x] ELSE 0) + (IF x = d THEN 1 ELSE 0))
 
+(* "directories that regain room are used again": the code picks uniformly among the directories it offers, and it  *)
+(* offers every directory that has room (a full one comes back when the cleaner takes a file out of it).  A directory *)
+(* that had room during n consecutive writes, with at most k directories having room at the same time, and received  *)
+(* none of them, was passed over with probability (1 - 1/k)^n; beyond n = 30 k (< 1e-13) it is not being offered.      *)
+WithRoom(news) == {x \in Dirs : cnt[x] < Limit} \cup DOMAIN news
+StarveAfter(d, news) ==
+  LET room == WithRoom(news)
+      k == Cardinality(room)
+      old(x) == IF x \in DOMAIN starve THEN starve[x] ELSE [n |-> 0, k |-> 0]
+  IN Fn(Dirs \cup DOMAIN news \cup {d},
+        LAMBDA x : IF x = d \/ x \notin room THEN [n |-> 0, k |-> 0]
+                   ELSE [n |-> old(x).n + 1, k |-> IF old(x).k > k THEN old(x).k ELSE k])
+Starved(st) == {x \in DOMAIN st : st[x].n > 30 * st[x].k /\ st[x].k > 0}
+
 Next ==
   /\ l <= Len(Trace)
   /\ LET e == Trace[l] IN
      IF e.op = "reset" THEN
         /\ active' = {} /\ rootOf' = Fn({}, LAMBDA x : 0) /\ cnt' = Fn({}, LAMBDA x : 0) /\ written' = FALSE
         /\ steps' = steps /\ l' = l + 1 /\ lost' = FALSE /\ mech' = TRUE
+        /\ starve' = Fn({}, LAMBDA x : [n |-> 0, k |-> 0])
      ELSE IF lost \/ "fs" \notin DOMAIN e \/ Len(e.fs.added) > 1 THEN
         \* the walk was not taken at quiescence (a stranded cleaner job): the rest of this trace is not judged
-        /\ UNCHANGED <<dvars, mech>> /\ l' = l + 1 /\ lost' = TRUE
+        /\ UNCHANGED <<dvars, mech, starve>> /\ l' = l + 1 /\ lost' = TRUE
      ELSE LET fs == e.fs IN
         IF Len(fs.stray) > 0 THEN Reject(<<"entries outside root/<uuid-dir>/<file>", fs.stray>>)
         ELSE IF Len(fs.added) = 1 THEN
@@ -63,7 +79,12 @@ Next ==
               THEN Reject(<<"file placed in a directory that was never created", d>>)
               ELSE IF c2[d] > Limit
               THEN Reject(<<"directory", d, "holds", c2[d], "entries after this write, limit", Limit>>)
-              ELSE /\ IF follows
+              ELSE IF Starved(StarveAfter(d, news)) # {}
+              THEN LET x == CHOOSE x \in Starved(StarveAfter(d, news)) : TRUE
+                   IN Reject(<<"directory", x, "has room", cnt[x], "of", Limit, "and was passed over by", StarveAfter(d, news)[x].n,
+                               "consecutive writes with at most", StarveAfter(d, news)[x].k, "directories to choose from">>)
+              ELSE /\ starve' = StarveAfter(d, news)
+                   /\ IF follows
                       THEN WriteTo(d, news) /\ mech' = TRUE
                       ELSE /\ (mech => Drift(<<"directories created", fs.newdirs, "the mechanism expects per root", [r \in Roots |-> Expect(r)],
                                                 "file in", d, "offered", (active \ Full(active, cnt)) \cup DOMAIN news>>))
@@ -79,7 +100,7 @@ Next ==
                      /\ mech' = (mech /\ Len(fs.newdirs) = 0)
                      /\ rootOf' = IF Len(fs.newdirs) = 0 THEN rootOf
                                    ELSE Fn(Dirs \cup DOMAIN NewsRoot(fs), LAMBDA x : IF x \in Dirs THEN rootOf[x] ELSE NewsRoot(fs)[x])
-                     /\ UNCHANGED written
+                     /\ UNCHANGED <<written, starve>>
                      /\ steps' = steps /\ l' = l + 1 /\ lost' = FALSE
 
 Spec == Init /\ [][Next]_vars
